@@ -100,6 +100,20 @@ def run(repo: Repo, tier: str) -> Report:
         label = None
         if isinstance(arg0, (ast.List, ast.Tuple)) and len(arg0.elts) == 1 and isinstance(arg0.elts[0], ast.Name):
             label = arg0.elts[0].id
+        elif arg0 is not None:
+            if isinstance(arg0, ast.Name):
+                # a temporary: take the closest earlier assignment to it (same function, textually before the lookup)
+                prev = [a_ for a_ in ast.walk(fn) if isinstance(a_, ast.Assign) and len(a_.targets) == 1 and isinstance(a_.targets[0], ast.Name)
+                        and a_.targets[0].id == arg0.id and a_.lineno < st.lineno]
+                if prev:
+                    arg0 = max(prev, key=lambda a_: a_.lineno).value
+            # the label reaches the lookup through a conversion: which label is it, and what was done to it?
+            inside = [n_.id for n_ in ast.walk(arg0) if isinstance(n_, ast.Name) and n_.id in (p_begin, p_end)]
+            if len(set(inside)) == 1:
+                label = inside[0]
+                ob("R-FORMULA", f"{label} is looked up exactly as given", False,
+                   f"`{ast.unparse(arg0)}` converts the label before the lookup: a label between two axis values (or of another type) is changed into "
+                   f"one that is found, so neither the ValueError nor the method-based resolution sees the caller's value", st)
         kws = {kw.arg: ast.unparse(kw.value) for kw in call.keywords}
         lookups[label or f"?{st.lineno}"] = dict(var=var, k=int(k), node=node, stmt=st, call=call, kws=kws,
                                                  index=ast.unparse(call.func.value))
